@@ -165,7 +165,7 @@ func dynFocusSchema(r *rand.Rand) *schema.BodySchema {
 	}
 	// the label that selects the body is not the first one
 	late := &schema.BlockSchema{MinItems: 1,
-		Labels:        []*schema.LabelSchema{{Name: "name"}, {Name: "kind", IsDepKey: true}, {Name: "alias"}},
+		Labels:        []*schema.LabelSchema{{Name: "name"}, {Name: "kind", IsDepKey: true, Completable: true}, {Name: "alias"}},
 		Body:          &schema.BodySchema{Attributes: map[string]*schema.AttributeSchema{"note": {IsOptional: true, Constraint: schema.LiteralType{Type: cty.String}}}},
 		DependentBody: map[schema.SchemaKey]*schema.BodySchema{}}
 	for _, v := range []string{"aws", "gcp"} {
@@ -175,7 +175,27 @@ func dynFocusSchema(r *rand.Rand) *schema.BodySchema {
 			DocsLink:   &schema.DocsLink{URL: "https://example.com/docs/late/" + v, Tooltip: v + " docs"}}
 		depKeyIndex[late] = append(depKeyIndex[late], dk)
 	}
-	return &schema.BodySchema{Blocks: map[string]*schema.BlockSchema{"resource": res, "svc": svc, "plug": plug, "plain": plain, "mods": mods, "late": late}}
+	// declarations the root body itself stands for (the root schema is used as supplied, never copied), nested
+	// ones listed in no particular order
+	rootAddr := func(steps ...string) lang.Address {
+		a := lang.Address{lang.RootStep{Name: "focus"}}
+		for _, s := range steps {
+			a = append(a, lang.AttrStep{Name: s})
+		}
+		return a
+	}
+	rootTargetable := &schema.Targetable{Address: rootAddr(), ScopeId: "resource", AsType: cty.DynamicPseudoType,
+		NestedTargetables: schema.Targetables{
+			{Address: rootAddr("zone"), ScopeId: "resource", AsType: cty.String},
+			{Address: rootAddr("alpha"), ScopeId: "resource", AsType: cty.String,
+				NestedTargetables: schema.Targetables{
+					{Address: rootAddr("alpha", "y"), ScopeId: "resource", AsType: cty.Number},
+					{Address: rootAddr("alpha", "b"), ScopeId: "resource", AsType: cty.Number},
+				}},
+			{Address: rootAddr("mid"), ScopeId: "resource", AsType: cty.Bool},
+		}}
+	return &schema.BodySchema{TargetableAs: schema.Targetables{rootTargetable},
+		Blocks: map[string]*schema.BlockSchema{"resource": res, "svc": svc, "plug": plug, "plain": plain, "mods": mods, "late": late}}
 }
 
 func genType(r *rand.Rand, d int) cty.Type {
@@ -565,7 +585,8 @@ func genFunctions(r *rand.Rand) map[string]schema.FunctionSignature {
 		"f0":             {ReturnType: cty.String, Description: "no params"},
 		"f1":             {ReturnType: cty.String, Params: []function.Parameter{p("s", cty.String)}},
 		"f2":             {ReturnType: cty.Number, Params: []function.Parameter{p("x", cty.Number), p("y", cty.Number)}},
-		"fv":             {ReturnType: cty.List(cty.String), Params: []function.Parameter{p("sep", cty.String)}, VarParam: &vp},
+		// a parameter list built by append, as a generated function table has: spare capacity behind the last element
+		"fv":             {ReturnType: cty.List(cty.String), Params: append(make([]function.Parameter, 0, 8), p("sep", cty.String)), VarParam: &vp},
 		"fonlyv":         {ReturnType: cty.Bool, VarParam: &vp},
 		"fdyn":           {ReturnType: cty.DynamicPseudoType, Params: []function.Parameter{p("v", cty.DynamicPseudoType)}},
 		"provider::a::b": {ReturnType: cty.String, Params: []function.Parameter{p("s", cty.String)}},
@@ -984,7 +1005,7 @@ func (g *cfgGen) block(bt string, bs *schema.BlockSchema, d int, depth int) {
 	if g.inj {
 		switch r.Intn(6) {
 		case 0:
-			nl += r.Intn(3) - 1
+			nl += r.Intn(4) - 1 // one label less, the right number, one or two surplus labels
 			if nl < 0 {
 				nl = 0
 			}
